@@ -71,6 +71,33 @@ def regen():
     return rc == 0, (out + err).strip()
 
 
+GEN_OF = {"tr_dtypes": "DtypeTables", "tr_config": "ConfigTable", "tr_storage": "StorageKinds", "tr_hook": "HookConsts",
+          "tr_brackets": "Brackets", "tr_pyl": "CheckDimsSrc"}
+
+
+def gen_deps(pid):
+    """the generated files (coq/gen/X.v) the theorems of props/<pid>.v depend on, through every imported model/proofs file"""
+    seen, todo, gens = set(), [os.path.join("props", pid + ".v")], set()
+    while todo:
+        f = todo.pop()
+        if f in seen or not os.path.exists(os.path.join(COQ, f)):
+            continue
+        seen.add(f)
+        src = strip_comments(open(os.path.join(COQ, f)).read())
+        for m in re.finditer(r"From\s+JT\s+Require\s+(?:Import|Export)\s+(.*?)\.\s", src + " ", re.S):
+            for mod in m.group(1).split():
+                parts = mod.split(".")
+                if len(parts) == 2:
+                    if parts[0] == "gen":
+                        gens.add(parts[1])
+                    todo.append(os.path.join(parts[0], parts[1] + ".v"))
+    return gens
+
+
+def failed_translators(msg):
+    return set(re.findall(r"^(tr_\w+):", msg, re.M))
+
+
 def coq_project():
     files = []
     for d in ("model", "gen", "proofs", "props"):
@@ -307,8 +334,14 @@ class Report:
         """regen + build + props; records obligations; returns True when all discharged."""
         ok, msg = regen()
         if not ok:
-            self.violation("proof", "translator failed (source no longer in the translatable fragment): " + msg[-1500:],
-                           {"translator_output": msg[-3000:]}, no_input=True)
+            # only the translators whose output this property's theorems depend on matter here
+            mine = {t for t in failed_translators(msg) if GEN_OF.get(t) in gen_deps(self.pid)} or (failed_translators(msg) and set()) or {"?"}
+            if failed_translators(msg) and not mine:
+                self.notes.append("a translator this property does not depend on failed: " + msg[-300:])
+                ok = True
+            else:
+                self.violation("proof", "translator failed (source no longer in the translatable fragment): " + msg[-1500:],
+                               {"translator_output": msg[-3000:]}, no_input=True)
         bad = coq_hygiene()
         if bad:
             self.violation("proof", "hygiene grep failed: " + "; ".join(bad[:5]), {"hygiene": bad}, no_input=True)
